@@ -6,8 +6,12 @@ package props
 
 import (
 	"fmt"
+	"io"
+	"log"
 	"math"
 	"strings"
+
+	"pgregory.net/rapid"
 
 	stackage "github.com/JesseCoretta/go-stackage"
 )
@@ -435,6 +439,7 @@ type Node struct {
 	Delim    string     `json:"delim,omitempty"`
 	Encap    [][]string `json:"encap,omitempty"`
 	Wrap     int        `json:"wrap,omitempty"`
+	Amb      int        `json:"amb,omitempty"` // ambient, semantically neutral settings (AmbXxx bits), applied after the elements are in
 	Elems    []Node     `json:"elems,omitempty"`
 
 	// cond (also uses Paren, NoPad, NoNest, Encap, Wrap)
@@ -540,6 +545,64 @@ func BuildWith(n Node, o BuildOpts) any {
 
 func BuildStack(n Node) stackage.Stack { return buildStack(n, BuildOpts{}) }
 
+// Ambient settings: none of them is named by any property as influencing the
+// behaviour under test (identifier, category, auxiliary map, ordering closure, an
+// accepting validity closure, an accepting push closure installed after the
+// content is in, a discarding logger at every log level, the mutex). Every check
+// must therefore give the same verdict with and without them.
+const (
+	AmbID = 1 << iota
+	AmbCategory
+	AmbAux
+	AmbLess
+	AmbValidOK
+	AmbPushOK
+	AmbLogAll
+	AmbMutex
+	AmbAll = 1<<iota - 1
+)
+
+var discardLogger = log.New(io.Discard, "", 0)
+
+func ApplyAmbient(s stackage.Stack, amb int) {
+	if amb&AmbMutex != 0 {
+		s.SetMutex()
+	}
+	if amb&AmbID != 0 {
+		s.SetID("ambient-id")
+	}
+	if amb&AmbCategory != 0 {
+		s.SetCategory("ambient-category")
+	}
+	if amb&AmbAux != 0 {
+		s.SetAuxiliary(stackage.Auxiliary{"k": 1})
+	}
+	if amb&AmbLess != 0 {
+		s.SetLessFunc(func(i, j int) bool { return i < j })
+	}
+	if amb&AmbValidOK != 0 {
+		s.SetValidityPolicy(func(...any) error { return nil })
+	}
+	if amb&AmbPushOK != 0 {
+		s.SetPushPolicy(func(...any) error { return nil })
+	}
+	if amb&AmbLogAll != 0 {
+		s.SetLogger(discardLogger)
+		s.SetLogLevel(stackage.AllLogLevels)
+	}
+}
+
+func drawAmbient(t *rapid.T, allowPush bool) int {
+	if rapid.IntRange(0, 1).Draw(t, "ambient?") == 0 {
+		return 0
+	}
+	a := rapid.IntRange(1, AmbAll).Draw(t, "ambient")
+	if !allowPush {
+		a &^= AmbPushOK
+	}
+	return a
+}
+
 func buildStack(n Node, o BuildOpts) stackage.Stack {
 	s := newStackOfKind(n.Kind, n.Cap)
 	if n.FIFO {
@@ -581,6 +644,9 @@ func buildStack(n Node, o BuildOpts) stackage.Stack {
 	}
 	if n.NoNest {
 		s.SetNoNesting(true)
+	}
+	if n.Amb != 0 {
+		ApplyAmbient(s, n.Amb)
 	}
 	if n.ReadOnly {
 		s.SetReadOnly(true)
